@@ -41,7 +41,7 @@ ORACLES = {
         'stdlib::str_index': ['stdlib::str_index'],
         'stdlib::str_slice': ['stdlib::str_slice'],
         '*': ['core::str_char_at', 'core::str_slice', 'stdlib::str_index', 'stdlib::str_slice', 'stdlib::list_get', 'stdlib::list_get_mut',
-              'stdlib::list_slice', 'stdlib::dict_get', 'stdlib::dict_get_str', 'stdlib::range', 'incan::emit_slice'],
+              'stdlib::list_slice', 'stdlib::dict_get', 'stdlib::dict_get_str', 'stdlib::range', 'incan::emit_slice', 'incan::emit_range'],
     },
     'C07': {
         'adapters::extract_int_literal': ['incan::exponent_kind'], 'adapters::pow_exponent_kind_from_ast': ['incan::exponent_kind'],
